@@ -282,6 +282,18 @@ def edge_pool(name, **opts):
                     if o[0] == 'ok' and isinstance(o[1], str) and o[1] not in seen:
                         seen.add(o[1])
                         out.append(o[1])
+        # every two-digit prefix (bank / region / type code tables keyed on the first two digits)
+        if len(v) >= 4 and v[0].isdigit() and v[1].isdigit() and len(lengths) <= 4:
+            for a in string.digits:
+                for b in string.digits:
+                    if (a, b) == (v[0], v[1]):
+                        continue
+                    w = synth(name, a + b + v[2:], [], opts)
+                    if w and w[:2] == a + b:
+                        o = core.out(m.validate, w, **opts)
+                        if o[0] == 'ok' and isinstance(o[1], str) and o[1] not in seen:
+                            seen.add(o[1])
+                            out.append(o[1])
     _edge_cache[key] = out
     return out
 
